@@ -110,6 +110,22 @@ pub fn gen_pkg_named(rng: &mut Rng, idx: usize, prefix: &str, pkg_name: &str) ->
         }
       }
     }
+    // namespace imports: used as a whole (`typeof ns`) and qualified (`ns.Name`)
+    if rng.chance(1, 3) {
+      let j = rng.below(nfiles);
+      if j != i {
+        let local = format!("{}ns{}_{}", prefix.to_lowercase(), i, j);
+        items.push(Item::ImportNs { from: format!(".{}", path_of(j)), local: local.clone() });
+        if rng.chance(1, 2) {
+          type_names.push(format!("typeof {}", local));
+        }
+        for c in plan[j].iter().filter(|p| p.exported && !p.is_default && type_capable(p)) {
+          if rng.chance(1, 2) {
+            type_names.push(format!("{}.{}", local, c.name));
+          }
+        }
+      }
+    }
     // declarations
     for p in &plan[i] {
       let mut refs = vec![];
@@ -449,15 +465,13 @@ impl MultiWorld {
         let mut froms = vec![];
         let mut stars = vec![];
         let mut locals = vec![];
+        let mut nsimports: Vec<String> = vec![];
         for it in &f.items {
           match it {
-            Item::Decl(d) => decls.push(format!(
-              "({} {} {} (refs {}))",
-              names.id(&d.name),
-              d.exported as u8,
-              d.is_default as u8,
-              d.sig_refs.iter().map(|r| names.id(r).to_string()).collect::<Vec<_>>().join(" ")
-            )),
+            Item::Decl(d) => {
+              let r = refs_sexp(d, names);
+              decls.push(format!("({} {} {} {})", names.id(&d.name), d.exported as u8, d.is_default as u8, r))
+            }
             Item::Import { from, names: ns, .. } => {
               if let Some(j) = self.module_index(pi, from) {
                 for (n, l) in ns {
@@ -470,7 +484,11 @@ impl MultiWorld {
                 imports.push(format!("({} {} 0)", names.id(local), j));
               }
             }
-            Item::ImportNs { .. } => {}
+            Item::ImportNs { from, local } => {
+              if let Some(j) = self.module_index(pi, from) {
+                nsimports.push(format!("({} {})", names.id(local), j));
+              }
+            }
             Item::ExportFrom { from, names: ns } => {
               if let Some(j) = self.module_index(pi, from) {
                 for (n, e) in ns {
@@ -491,7 +509,7 @@ impl MultiWorld {
             Item::SideEffect(_) => {}
           }
         }
-        mods.push(format!("((decls {}) (imports {}) (from {}) (stars {}) (locals {}))", decls.join(" "), imports.join(" "), froms.join(" "), stars.join(" "), locals.join(" ")));
+        mods.push(format!("((decls {}) (imports {}) (from {}) (stars {}) (locals {}) (nsimports {}))", decls.join(" "), imports.join(" "), froms.join(" "), stars.join(" "), locals.join(" "), nsimports.join(" ")));
       }
     }
     let entries: Vec<String> = (0..self.pkgs.len()).filter_map(|pi| self.module_index(pi, &format!("jsr:{}", self.pkgs[pi].name))).map(|i| i.to_string()).collect();
@@ -571,6 +589,23 @@ impl Names {
   }
 }
 
+/// the references of a declaration's public signature in the model's terms: plain local names
+/// (`X`, and `typeof ns` for a namespace import used as a whole) and qualified ones (`ns.X`)
+fn refs_sexp(d: &Decl, names: &mut Names) -> String {
+  let mut plain = vec![];
+  let mut qual = vec![];
+  for r in &d.sig_refs {
+    if let Some(ns) = r.strip_prefix("typeof ") {
+      plain.push(names.id(ns).to_string());
+    } else if let Some((l, x)) = r.split_once('.') {
+      qual.push(format!("({} {})", names.id(l), names.id(x)));
+    } else {
+      plain.push(names.id(r).to_string());
+    }
+  }
+  format!("(refs {}) (qrefs {})", plain.join(" "), qual.join(" "))
+}
+
 fn file_index(p: &APkg, from_file: usize, spec: &str) -> Option<usize> {
   // "./f2.ts" relative to the package root (all files are at the root)
   let _ = from_file;
@@ -586,15 +621,13 @@ pub fn trace_request(p: &APkg, names: &mut Names) -> String {
     let mut froms = vec![];
     let mut stars = vec![];
     let mut locals = vec![];
+    let mut nsimports: Vec<String> = vec![];
     for it in &f.items {
       match it {
-        Item::Decl(d) => decls.push(format!(
-          "({} {} {} (refs {}))",
-          names.id(&d.name),
-          d.exported as u8,
-          d.is_default as u8,
-          d.sig_refs.iter().map(|r| names.id(r).to_string()).collect::<Vec<_>>().join(" ")
-        )),
+        Item::Decl(d) => {
+          let r = refs_sexp(d, names);
+          decls.push(format!("({} {} {} {})", names.id(&d.name), d.exported as u8, d.is_default as u8, r))
+        }
         Item::Import { from, names: ns, .. } => {
           if let Some(j) = file_index(p, i, from) {
             for (n, l) in ns {
@@ -607,7 +640,11 @@ pub fn trace_request(p: &APkg, names: &mut Names) -> String {
             imports.push(format!("({} {} 0)", names.id(local), j));
           }
         }
-        Item::ImportNs { .. } => {}
+        Item::ImportNs { from, local } => {
+          if let Some(j) = file_index(p, i, from) {
+            nsimports.push(format!("({} {})", names.id(local), j));
+          }
+        }
         Item::ExportFrom { from, names: ns } => {
           if let Some(j) = file_index(p, i, from) {
             for (n, e) in ns {
@@ -629,12 +666,13 @@ pub fn trace_request(p: &APkg, names: &mut Names) -> String {
       }
     }
     mods.push(format!(
-      "((decls {}) (imports {}) (from {}) (stars {}) (locals {}))",
+      "((decls {}) (imports {}) (from {}) (stars {}) (locals {}) (nsimports {}))",
       decls.join(" "),
       imports.join(" "),
       froms.join(" "),
       stars.join(" "),
-      locals.join(" ")
+      locals.join(" "),
+      nsimports.join(" ")
     ));
   }
   let entries: Vec<String> = p
@@ -966,6 +1004,9 @@ fn cases(tier: &str, seed: u64, salt: u64, quick: usize, thorough: usize) -> Vec
     let world = world_of(&pkg);
     let run = run_fast_check(&world, None, false);
     let replay = json!({"world": world.describe()});
+    if std::env::var("DGH_DUMP_WORLD").is_ok() {
+      eprintln!("{}", serde_json::to_string(&replay).unwrap());
+    }
     out.push(Case { pkg, world, run, replay });
   }
   out
@@ -1192,6 +1233,12 @@ pub fn run_c09(tier: &str, seed: u64) -> Report {
       let mut names = Names { list: vec!["default".into()] };
       let req = trace_request(pkg, &mut names);
       if let Ok(t) = retained_tokens(pkg, run, &mut names) {
+        if req.contains("(nsimports (") {
+          report.count("packages-with-namespace-imports");
+        }
+        if !req.contains("(qrefs )") || req.matches("(qrefs (").count() > 0 {
+          report.count_n("qualified-references-through-namespace-imports", req.matches("(qrefs (").count() as u64);
+        }
         batch.push(req, t, true);
       }
     }
